@@ -48,7 +48,7 @@ CHECKS = {
                 note=V + "; runtime.Stack lists every goroutine with its creator."),
     "C20": dict(cat="exploration", ref="5 (C20), 2 (R)",
                 technique="Go race detector over real-clock stress runs of every discipline with real handler / producer / control goroutines (plus a small fake-clock block), including families without any instrumentation of the harness's own (monitor mutexes and atomics are happens-before edges that can hide a race); reports counted and deduplicated by the driver; thorough tier repeats with GODEBUG=asynctimerchan=1",
-                text="Any 'WARNING: DATA RACE' block is a witness. Uninstrumented families: private PRNG per goroutine, bare divider, Handle touching only its argument and a plain per-item result slot that the caller reads right after a normal termination; the caller keeps writing to its Inputs map; Stop / cancel right after construction; two concurrent control goroutines; the pure helpers called concurrently with shared arguments. What the detector cannot see: races on paths the workloads do not drive.",
+                text="Any 'WARNING: DATA RACE' block is a witness. Uninstrumented families: private PRNG per goroutine, bare divider, Handle touching only its argument and a plain per-item result slot that the caller reads right after a normal termination (v1 Simple: also right after Err() closed on Stop / cancel); the caller keeps writing to its Inputs map; Stop / cancel right after construction; two concurrent control goroutines; the pure helpers called concurrently with shared arguments. What the detector cannot see: races on paths the workloads do not drive.",
                 note="Go race detector of go1.26.8; the race build is kept to a few hundred synctest bubbles because the race runtime itself occasionally aborts after thousands of bubbles (driver re-runs a part on that signature)."),
     "C03": dict(cat="exploration", ref="5 (C03), 2 (V, R)",
                 technique="offline history checker (conservation/size oracle) over event logs recorded at the API boundary of the real join/unite disciplines, driven by generated producer/consumer scripts on the synctest fake clock and on the real clock",
